@@ -1259,6 +1259,28 @@ def closure_apply(facts, clo, args, spec=None):
     return norm(ret)
 
 
+def closure_truth(facts, clo, args, spec=None):
+    """Conjunction of atoms under which the boolean closure aggregate `clo`, applied to `args`, is true; None if unknown.
+    A closure whose body is straight-line gives its term; one built with `&&` / `||` (control flow) goes through its
+    predicate summary."""
+    c = closure_apply(facts, clo, args, spec)
+    if c is not None and not has_unknown(c):
+        return _truth(c)
+    if not (isinstance(clo, tuple) and clo[:1] == ('agg',) and isinstance(clo[1], str) and clo[1].startswith('closure:')):
+        return None
+    cf = facts.fns.get(clo[1][len('closure:'):])
+    if cf is None:
+        return None
+    ps = pred_summary(facts, cf, spec)
+    if ps is None:
+        return None
+
+    def sub(t):
+        t = subst_upvars(t, list(clo[2]))
+        return norm(subst(t, cf, [('closure_env',)] + list(args)))
+    return [map_atom(a, sub) for a in ps]
+
+
 def _opaque_opt(t):
     """An Option-valued term the algebra cannot open (foreign call such as `to_usize`): Some under the opaque atom
     `discr(t) is 1`, payload in the `if let Some(v)` form."""
@@ -1311,10 +1333,10 @@ def _opt_view(facts, t, spec=None, depth=0):
             return None
         out = []
         for a, p in inner:
-            c = closure_apply(facts, args[1], [p], spec)
-            if c is None or has_unknown(c):
+            c = closure_truth(facts, args[1], [p], spec)
+            if c is None:
                 return None
-            out.append((a + _truth(c), p))
+            out.append((a + c, p))
         return out
     if is_opt and name == 'and_then' and len(args) == 2:
         inner = opt_view(facts, args[0], spec, depth + 1, receiver=True)
@@ -1432,18 +1454,18 @@ def bool_view(facts, t, spec=None, depth=0):
         v = opt_view(facts, args[0], spec, depth + 1, receiver=True)
         if v is None or len(v) != 1:
             return None
-        c = closure_apply(facts, args[1], [v[0][1]], spec)
+        c = closure_truth(facts, args[1], [v[0][1]], spec)
         if c is None:
             return None
-        return v[0][0] + _truth(c)
+        return v[0][0] + c
     if name == 'map_or' and len(args) == 3 and args[1] == ('const', 0):
         v = opt_view(facts, args[0], spec, depth + 1, receiver=True)
         if v is None or len(v) != 1:
             return None
-        c = closure_apply(facts, args[2], [v[0][1]], spec)
+        c = closure_truth(facts, args[2], [v[0][1]], spec)
         if c is None:
             return None
-        return v[0][0] + _truth(c)
+        return v[0][0] + c
     return None
 
 
